@@ -246,6 +246,8 @@ fn add_second(n: &mut Num, rng: &mut Rng) {
     if let Some((v, _)) = &n.max { if n.min2.is_none() || rng.chance(1, 2) { n.max2 = Some(shift(v, rng.range(-1, 1) as i128)); } }
 }
 
+thread_local! { pub static SAT_REQS: std::cell::RefCell<Vec<(String, String)>> = std::cell::RefCell::new(vec![]); }
+
 pub fn check_num(w: &World, n: &Num, rng: &mut Rng, rep: &mut Report, case: &Value) -> Vec<(String, bool)> {
     let mut verdicts = vec![];
     rep.evaluations += 1;
@@ -254,6 +256,22 @@ pub fn check_num(w: &World, n: &Num, rng: &mut Rng, rep: &mut Report, case: &Val
     let base = w.matcher(&g);
     let lits = literals(n, rng);
     let any_expected = satisfiable(n);
+    // the same question to the proved Lean decision (theorem hasMult_iff): bounds and step as integers at a common scale
+    let sat_req: Option<String> = (|| {
+        let (lo, hi) = (n.eff_min()?, n.eff_max()?);
+        if !n.lows().iter().chain(n.highs().iter()).all(|b| f64_exact(&b.0)) { return None; }
+        let (l, h) = (D::parse(&lo.0)?, D::parse(&hi.0)?);
+        let m = match &n.mult { Some(m) => Some(D::parse(m)?), None => None };
+        let sc = [Some(l), Some(h), m].into_iter().flatten().map(|d| d.scale).max().unwrap_or(0);
+        let up = |d: D| d.mant * 10i128.pow(sc - d.scale);
+        let unit = 10i128.pow(sc);
+        let step = match (m.map(up), n.integer) { (Some(0), _) => return None, (Some(m), true) => { let g = gcd(m, unit); m / g * unit } (Some(m), false) => m, (None, true) => unit, (None, false) => 0 };
+        Some(format!("num sat {} {} {} {} {}", up(l), lo.1 as u8, up(h), hi.1 as u8, step))
+    })();
+    if let Some(rq) = &sat_req {
+        let refused_as_empty = base.is_error() && base.get_error().unwrap_or_default().contains("Unsatisfiable");
+        if !base.is_error() || refused_as_empty { SAT_REQS.with(|v| v.borrow_mut().push((rq.clone(), if base.is_error() { "0".into() } else { "1".into() }))); }
+    }
     if base.is_error() {
         let msg = crate::eng::err_class(&base.get_error().unwrap_or_default());
         // rejection at compile time is right iff no value satisfies the keywords
@@ -358,7 +376,13 @@ fn push_sem(mb: &mut ModelBatch, tag: usize, n: &Num, verdicts: &[(String, bool)
     mb.push(format!("num m {} {} {hex}", f(lo), f(hi)), format!("ok {bits}"), tag);
 }
 
-pub fn run_case(_ctx: &Ctx, case: &Value, tag: usize, rep: &mut Report, mb: &mut ModelBatch) {
+pub fn run_case(ctx: &Ctx, case: &Value, tag: usize, rep: &mut Report, mb: &mut ModelBatch) {
+    SAT_REQS.with(|v| v.borrow_mut().clear());
+    run_case_inner(ctx, case, tag, rep, mb);
+    SAT_REQS.with(|v| for (rq, exp) in v.borrow_mut().drain(..) { mb.push(rq, exp, tag); });
+}
+
+fn run_case_inner(_ctx: &Ctx, case: &Value, tag: usize, rep: &mut Report, mb: &mut ModelBatch) {
     let sb = vocab::single_byte_words();
     let eos = sb.len() as u32 - 1;
     let Ok(w) = World::new(sb, eos, false, None) else { rep.skip("world"); return; };
